@@ -181,9 +181,45 @@ class PathDomain(Domain):
                 return state if known == tr else None
         if text in ('True', 'False'):
             return state if (text == 'True') == tr else None
+        nn = self._none_test(canon)
+        if nn is not None:
+            return state if nn == tr else None
         if (not tr, text, canon) in facts:
             return None
         return (env, facts | {(tr, text, canon)}, events)
+
+    NEVER_NONE_METHODS = ('reshape', 'copy', 'flatten', 'ravel', 'astype', 'transpose', 'dot')
+    NEVER_NONE_FUNCS = ('array', 'asarray', 'zeros', 'ones', 'eye', 'copy', 'reshape', 'hstack', 'vstack', 'concatenate', 'cross', 'abs',
+                        'list', 'tuple', 'dict', 'set', 'float', 'int', 'str', 'bool', 'len', 'range')
+
+    def _none_test(self, canon):
+        """truth of `<e> is None` / `<e> is not None` / `== None` when the (substituted) expression e is visibly None or visibly a value
+        (a literal, arithmetic, a display, the result of an array constructor / reshape / copy); None when undecided"""
+        try:
+            e = ast.parse(canon, mode='eval').body
+        except SyntaxError:
+            return None
+        if not (isinstance(e, ast.Compare) and len(e.ops) == 1 and isinstance(e.ops[0], (ast.Is, ast.IsNot, ast.Eq, ast.NotEq))):
+            return None
+        l, r = e.left, e.comparators[0]
+        if isinstance(l, ast.Constant) and l.value is None:
+            l, r = r, l
+        if not (isinstance(r, ast.Constant) and r.value is None):
+            return None
+        is_none = None
+        if isinstance(l, ast.Constant):
+            is_none = l.value is None
+        elif isinstance(l, (ast.BinOp, ast.Tuple, ast.List, ast.Dict, ast.Set, ast.ListComp, ast.JoinedStr, ast.Lambda)):
+            is_none = False
+        elif isinstance(l, ast.Call):
+            f = l.func
+            tail = f.attr if isinstance(f, ast.Attribute) else (f.id if isinstance(f, ast.Name) else '')
+            recv_np = isinstance(f, ast.Attribute) and isinstance(f.value, ast.Name) and f.value.id in ('np', 'numpy')
+            if (isinstance(f, ast.Attribute) and not recv_np and tail in self.NEVER_NONE_METHODS) or ((recv_np or isinstance(f, ast.Name)) and tail in self.NEVER_NONE_FUNCS):
+                is_none = False
+        if is_none is None:
+            return None
+        return is_none if isinstance(e.ops[0], (ast.Is, ast.Eq)) else not is_none
 
     def effects(self, expr, state):
         env, facts, events = state
